@@ -1,7 +1,7 @@
 import Goat.Model.CF
 import Goat.Driver.Opt
 /-! line protocol: `cf <opt|noopt> <stmt tokens…> | a<n>=<instrs,…> … c<n>=<instrs,…> …`
-    statement tokens (prefix): `act n`, `seq`, `ite c`, `ift c`, `loop c p`, `forever p`, `brk`, `cont`, `swc c` (clause, then the rest of the switch), `swd` (default), `ret n` (return after leaf n);
+    statement tokens (prefix): `act n`, `seq`, `ite c`, `ift c`, `loop c p`, `forever p`, `brk`, `cont`, `swc c` (clause, then the rest of the switch), `swd` (default), `ret n` (return after leaf n), `rng r kv it` (range over the item leaf `it`, slots as in the real code);
     answer: the assembled function body `rw 0 0 (compile L s)` (then the peephole passes when `opt`). -/
 namespace Goat.Driver
 open Goat.CF Goat.Peephole
@@ -37,6 +37,12 @@ partial def parseStmt : List String → Option (Stmt × List String)
     let p ← p.toNat?
     let (b, r) ← parseStmt r
     some (.loop c b p, r)
+  | "rng" :: rr :: kv :: it :: r => do
+    let rr ← rr.toInt?
+    let kv ← kv.toInt?
+    let it ← it.toNat?
+    let (b, r) ← parseStmt r
+    some (.rng rr kv it b, r)
   | "forever" :: p :: r => do
     let p ← p.toNat?
     let (b, r) ← parseStmt r
